@@ -50,3 +50,18 @@ def construct_like(kind, data_file, run_name, data_dir, fn_set):
     from mpi4py import MPI
     make_like(kind, data_file, run_name, data_dir, fn_set)
     MPI.COMM_WORLD.Barrier()
+
+
+def fit_stages_det(kind, data_file, run_name, data_dir, fn_set, compl, stages, opts=None):
+    """As fit_stages, but the optimiser's random starts are a function of the function string only
+    (re-seeded per function), so that stage outputs do not depend on how functions are split among ranks."""
+    import zlib
+    import numpy as np
+    import esr.fitting.test_all as ta
+    orig = ta.optimise_fun
+
+    def seeded(fcn_i, *a, **k):
+        np.random.seed(zlib.crc32(fcn_i.strip().encode()) & 0x7fffffff)
+        return orig(fcn_i, *a, **k)
+    ta.optimise_fun = seeded
+    fit_stages(kind, data_file, run_name, data_dir, fn_set, compl, stages, seed=0, opts=opts)
